@@ -38,148 +38,20 @@ def eq_upvar_closure(prog, key):
 
 def run(prog, chk, tier):
     chk.explanation = (
-        "check_attribute_types as a decision table: unsupported list non-empty -> Some(unknown_attributes(msg, &unsupported)) "
-        "(tested before the required-missing test) ; else a required type absent -> Some(bad_request(msg)) ; else None. The "
-        "candidate list is iter_attributes().map(get_type).filter(comprehension_required && !supported.any(==)).collect() - "
-        "order-preserving adaptors only; comprehension_required is `value < 0x8000` (exact for all 65536 values); the responses "
-        "are built with ErrorCode 420/400, class Error, method and transaction id of the source, UNKNOWN-ATTRIBUTES added iff "
-        "the list is non-empty. Decided for the wiring; that the response parses back is C03.")
+        "check_attribute_types decided from the abstract interpreter's return states over short symbolic lists: the message "
+        "exposes k attributes of symbolic types, the caller supports m and requires n symbolic types (all sizes 0..2); the "
+        "iterator chains (map / filter / any / contains / collect / copied, whatever their arrangement) are evaluated "
+        "element by element with the closures called in context, every comparison a path does not decide forks it. Each "
+        "return state is compared with the specification evaluated on the comparisons it decided: comprehension-required "
+        "types the caller does not support => Some(unknown_attributes(msg, exactly those types in message order)), tested "
+        "before the required types; else a required type missing => Some(bad_request(msg)); else None. "
+        "comprehension_required is `value < 0x8000` (exact for all 65536 values); the responses are built with ErrorCode "
+        "420/400, class Error, method and transaction id of the source, UNKNOWN-ATTRIBUTES added iff the list is "
+        "non-empty. Lists longer than two are covered by the element-wise structure of the std adaptors (model table), not "
+        "by enumeration. That the response parses back is C03.")
     chk.trusted += ["rustc MIR", "Iterator::map/filter/collect/any semantics (order preserving)", "spec in pylib/rules/c16.py"]
-    rule = "policing-table"
-    b, ups = instrumented_body(prog, M + "check_attribute_types")
-    og = Origins(prog, b)
-    msg, supported, required = ("param", "msg"), ("param", "supported"), ("param", "required_in_msg")
-    collect = ("call", r"Iterator>::collect::<std::vec::Vec<stun_types::attribute::AttributeType>>$",
-               [("call", r"Iterator>::filter::<", [("call", r"MessageAttributesIter<'_> as std::iter::Iterator>::map::<", [ITER, ("agg", "^closure:", None)]),
-                                                   ("agg", "^closure:", None)])])
-    is_empty = ("call", r"Vec::<stun_types::attribute::AttributeType>::is_empty$", [collect])
-    any_req = ("call", r"slice::Iter<'_, stun_types::attribute::AttributeType> as std::iter::Iterator>::any::<",
-               [("call", r"slice::<impl \[stun_types::attribute::AttributeType\]>::iter$", [required]), ("agg", "^closure:", [msg])])
-    captured = {}
-
-    def mk(U, Mi):
-        def oracle(o, t, body):
-            s = strip(o)
-            neg = False
-            if s.k == "un" and s.a[0] == "Not":
-                neg, s = True, strip(s.a[1])
-            if pm(s, is_empty, b):
-                captured["collect"] = strip(s).a[2][0]
-                v = 0 if U else 1
-                return 1 - v if neg else v
-            if pm(s, any_req, b):
-                captured["any"] = s
-                return (1 - Mi) if neg else Mi
-            return None
-        return oracle
-
-    def call_event(name, args, t, og_):
-        if re.search(r"Message::<'a>::(unknown_attributes|bad_request)$", name):
-            return ("call", name, args)
-        return None
-    unk = ("call", r"Message::<'a>::unknown_attributes$", [msg, ("call", r"Vec<stun_types::attribute::AttributeType> as std::ops::Deref>::deref$", [collect])])
-    bad = ("call", r"Message::<'a>::bad_request$", [msg])
-    n = 0
-    for U in (0, 1):
-        for Mi in (0, 1):
-            w = Walker(prog, b, mk(U, Mi), call_event, track_locals={0}, mut_arg_event=False)
-            name = "unsupported=%s,required-missing=%s" % ("some" if U else "none", "yes" if Mi else "no")
-            try:
-                beh = w.run()
-            except Unrecognised as e:
-                chk.fail(rule, name + "|unrecognised-guard", short_span(b.term(e.bb)["span"]), str(e)[:400])
-                continue
-            n += 1
-            evs = [e for e in events_only(beh) if e[0] in ("call", "set")]
-            if U:
-                exp = [unk, ("set", 0, ("agg", r"Option::Some$", [unk]))]
-            elif Mi:
-                exp = [bad, ("set", 0, ("agg", r"Option::Some$", [bad]))]
-            else:
-                exp = [("set", 0, ("agg", r"Option::None$", []))]
-            ok = len(evs) == len(exp) and all(ev_match(e, p, b) for e, p in zip(evs, exp))
-            chk.ob(rule, name, ok, b.loc(), detail=show(evs)[:500], how=show(evs)[:200])
-    chk.floor(rule + "-rows", n, 4)
-    # ---- the candidate list
-    rule = "candidate-list"
-    col = captured.get("collect")
-    if col is None:
-        chk.fail(rule, "collect-chain-not-found", b.loc())
-    else:
-        flt = strip(strip(col).a[2][0])
-        mp = strip(flt.a[2][0])
-        mk_, _ = closure_of(mp.a[2][1])
-        fk, fagg = closure_of(flt.a[2][1])
-        chk.ob(rule, "map closure returns the attribute's type", returns_get_type(prog, mk_), b.loc(), detail=str(mk_))
-        chk.ob(rule, "filter closure captures `supported`", fagg is not None and len(fagg.a[1]) == 1 and pm(fagg.a[1][0], supported, b), b.loc(),
-               detail=repr(fagg)[:200])
-        fb = prog.bodies.get(fk)
-        if fb is None:
-            chk.fail(rule, "filter-closure-missing")
-        else:
-            fog = Origins(prog, fb)
-            cr = ("call", r"AttributeType::comprehension_required$", [("param", 2)])
-            anyc = ("call", r"slice::Iter<'_, stun_types::attribute::AttributeType> as std::iter::Iterator>::any::<",
-                    [("call", r"slice::<impl \[stun_types::attribute::AttributeType\]>::iter$", [("field", ("param", 1), "upvar0")]), ("agg", "^closure:", None)])
-            res = {}
-            inner = {}
-            for CR in (0, 1):
-                for SUP in (0, 1):
-                    def oracle(o, t, body, CR=CR, SUP=SUP):
-                        s = strip(o)
-                        if pm(s, cr, fb):
-                            return CR
-                        if pm(s, anyc, fb):
-                            inner["k"] = closure_of(s)[0]
-                            return SUP
-                        if s.k == "un" and s.a[0] == "Not" and pm(s.a[1], anyc, fb):
-                            inner["k"] = closure_of(s)[0]
-                            return 1 - SUP
-                        return None
-                    multi = {i for i in range(len(fb.locals)) if len(fb.defs().get(i, [])) > 1}
-                    w = Walker(prog, fb, oracle, lambda *a: None, track_locals={0} | multi, mut_arg_event=False)
-                    try:
-                        beh = w.run()
-                    except Unrecognised as e:
-                        chk.fail(rule, "filter|unrecognised-guard", short_span(fb.term(e.bb)["span"]), str(e)[:300])
-                        continue
-                    last = None
-                    for e in beh:
-                        if e[0] == "set" and e[1] == 0:
-                            last = strip(e[2])
-                    val = None
-                    if last is not None:
-                        if last.k == "const":
-                            val = bool(last.a[0])
-                        elif last.k == "un" and last.a[0] == "Not" and pm(last.a[1], anyc, fb):
-                            val = not SUP
-                            inner["k"] = closure_of(last)[0]
-                        elif pm(last, cr, fb):
-                            val = bool(CR)
-                    res[(CR, SUP)] = val
-            want = {(c, s): bool(c and not s) for c in (0, 1) for s in (0, 1)}
-            chk.ob(rule, "filter keeps exactly comprehension-required types that are not supported", res == want, fb.loc(),
-                   detail="truth table %r" % res, how=repr(res))
-            chk.ob(rule, "`supported` membership is tested with ==", inner.get("k") is not None and eq_upvar_closure(prog, inner["k"]), fb.loc(),
-                   detail=str(inner.get("k")))
-    # required-missing: required.iter().any(|at| !msg.iter_attributes().map(get_type).any(|a| a == at))
-    a = captured.get("any")
-    if a is None:
-        chk.fail(rule, "required-chain-not-found", b.loc())
-    else:
-        rk, _ = closure_of(a)
-        rb = prog.bodies.get(rk)
-        ro = strip(Origins(prog, rb).local(0)) if rb else None
-        ok = False
-        if ro is not None and ro.k == "un" and ro.a[0] == "Not":
-            inner_any = strip(ro.a[1])
-            if inner_any.k == "call" and re.search(r"Iterator>::any::<", inner_any.a[0]):
-                src = strip(inner_any.a[2][0])
-                ok = (src.k == "call" and re.search(r"MessageAttributesIter<'_> as std::iter::Iterator>::map::<", src.a[0]) is not None
-                      and pm(src.a[2][0], ("call", r"Message::<'a>::iter_attributes$", [("field", ("param", 1), "upvar0")]), rb)
-                      and returns_get_type(prog, closure_of(src.a[2][1])[0])
-                      and eq_upvar_closure(prog, closure_of(inner_any.a[2][1])[0]))
-        chk.ob(rule, "required-missing = required.any(|t| !exposed types.any(== t))", ok, rb.loc() if rb else None, detail=repr(ro)[:300])
+    from rules import police_e2 as PE
+    PE.policing(prog, chk)
     # ---- comprehension_required
     cb = prog.bodies["stun_types::attribute::AttributeType::comprehension_required"]
     o = Origins(prog, cb).local(0)
